@@ -1286,7 +1286,7 @@ func runC09(o Opts) (*Result, error) {
 	})
 
 	seen := map[string]bool{}
-	perShard := 25
+	perShard := 20
 	var cases []string
 	shard := 0
 	flush := func() error {
